@@ -41,7 +41,7 @@ func suffixOf(req []byte, code uint64) string {
 }
 
 func checkC11(c *hx.Ctx) {
-	c.Rule("chains of 3-6 requests produced by the client builders (create from patches or opaque document, update, recover from patches or opaque document, deactivate) with generated documents, patch lists, anchor origins of several JSON shapes, windows, nonces, kid headers, over the five key types/signature algorithms and both hash algorithms; oracle 1: the real parser (protocol enabling the algorithm) accepts each request and parses back exactly the supplied suffix, commitments, patches, reveal value, window, anchor origin; oracle 2: anchored in window in order, the real processor resolves to the state the reference model predicts from the builder inputs after every prefix; oracle 3: two chains anchored round by round through the REAL OperationHandler, CAS files, OperationProvider and TxnProcessor (round k = k-th request of both DIDs in one batch, creates with and without suffix-data type) resolve to the predicted states after every round; non-trivial = chain with >=3 applied operations; distinct = key types x hash x chain shape")
+	c.Rule("chains of 3-6 requests produced by the client builders (create from patches or opaque document, update, recover from patches or opaque document, deactivate) with generated documents, patch lists, anchor origins of several JSON shapes, windows, nonces, kid headers, over the five key types/signature algorithms and both hash algorithms; oracle 1: the real parser (protocol enabling the algorithm) accepts each request and parses back exactly the supplied suffix, commitments, patches, reveal value, window, anchor origin; oracle 2: anchored in window in order, the real processor resolves to the state the reference model predicts from the builder inputs after every prefix; oracle 3: two chains anchored round by round through the REAL OperationHandler, CAS files, OperationProvider and TxnProcessor (round k = k-th request of both DIDs in one batch, creates with and without suffix-data type; every third pair of chains reaches the node through the REAL observer, each batch in one ledger notification behind an unreadable transaction) resolve to the predicted states after every round; non-trivial = chain with >=3 applied operations; distinct = key types x hash x chain shape")
 	nCases := c.N(1500, 20000)
 	root := c.Rng("cases")
 	seeds := make([]uint64, nCases)
@@ -530,6 +530,7 @@ func chainsThroughBatchFiles(c *hx.Ctx, nPairs int) {
 		}
 		c.Distinct(fmt.Sprintf("bf|%v|%v", labelsOf(H[chains[0]]), labelsOf(H[chains[1]])))
 	})
+	c.Floor("batch_file_rounds_through_the_observer_behind_an_unreadable_transaction", 20)
 }
 
 // copyThenChange is one ietf-json-patch that adds an object-valued member, copies it and then changes the copy and / or the
